@@ -62,6 +62,14 @@ func vGenBitmap(p string) (*Bitmap, *vBDesc) {
 			key = uint16(i + 1)
 		case pat == 6:
 			key = uint16(2 * i)
+		case pat == 7:
+			key = uint16(65531 + 2*i)
+		case pat == 8:
+			key = uint16(65532 + 3*i)
+		case pat == 9: // anchored symbolic keys at the top of the key space: 0xFFF0+4i+{0..3}
+			key = uint16(0xFFF0+4*i) + (vsym.U16() & 3)
+		case pat == 10: // anchored symbolic keys low: 8i+{0..7}
+			key = uint16(8*i) + (vsym.U16() & 7)
 		case pat == 1 && i == 0:
 			key = 0
 		case pat == 2 && i == k-1:
